@@ -488,7 +488,7 @@ impl Reduce {
         input: Arc<Relation>,
     ) -> Self {
         // assert!(Split::from_iter(named_exprs.clone()).len()==1);
-        let (schema, aggregate) = Reduce::schema_aggregate(named_aggregate, &input);
+        let (schema, aggregate) = Reduce::schema_aggregate(named_aggregate, &group_by, &input);
         let size = Reduce::size(&input);
         Reduce {
             name,
@@ -503,17 +503,16 @@ impl Reduce {
     /// Compute the schema and exprs of the reduce
     fn schema_aggregate(
         named_aggregate_columns: Vec<(String, AggregateColumn)>,
+        group_by: &[Column],
         input: &Relation,
     ) -> (Schema, Vec<AggregateColumn>) {
         // The input schema HAS to be a Struct
         let input_data_type: Struct = input.data_type().try_into().unwrap();
         let input_columns_data_type: DataType =
             Struct::from_schema_size(input_data_type, input.size()).into();
-        let has_one_group = named_aggregate_columns
-            .iter()
-            .filter(|(_, agg)| matches!(agg.aggregate(), &Aggregate::First))
-            .count()
-            == 1;
+        // A grouping column is unique in the output only if it is the only grouping column
+        // (the other ones may just not be selected)
+        let has_one_group = group_by.len() == 1;
         let (fields, aggregates) = named_aggregate_columns
             .into_iter()
             .map(|(name, aggregate_column)| {
@@ -524,7 +523,7 @@ impl Reduce {
                             .super_image(&input_columns_data_type)
                             .unwrap(),
                         if aggregate_column.aggregate() == &Aggregate::First
-                            && (has_one_group
+                            && ((has_one_group && group_by[0] == *aggregate_column.column())
                                 || input
                                     .schema()
                                     .field(aggregate_column.column_name().unwrap())
